@@ -3220,17 +3220,42 @@ PIP_Solution_Node::solve(const PIP_Problem& pip,
           return nullptr;
         }
         else {
-          // t_node unfeasible, f_node feasible:
-          // restore cs and aps into f_node (i.e., this).
-          PPL_ASSERT(f_node == this);
-          swap(f_node->constraints_, cs);
-          swap(f_node->artificial_parameters, aps);
-          // Add f_test to constraints.
-          f_node->add_constraint(f_test, all_params);
+          // t_node unfeasible, f_node feasible.
 #ifdef NOISY_PIP_TREE_STRUCTURE
           indent_and_print(std::cerr, indent_level,
                            "=== EXIT: THEN BRANCH UNFEASIBLE: SWAP BRANCHES\n");
 #endif
+          // NOTE: the resolution of f_node may have added constraints and
+          // artificial parameters to it, or replaced it by a new node:
+          // `cs' and `aps' have to be merged with (not swapped into) it.
+          const PIP_Decision_Node* const decision_node_p
+            = dynamic_cast<PIP_Decision_Node*>(f_node);
+          if (decision_node_p != nullptr
+              && decision_node_p->false_child != nullptr) {
+            // Do NOT merge (see below): create a new decision node.
+            PIP_Tree_Node* const parent
+              = new PIP_Decision_Node(f_node->get_owner(), nullptr, f_node);
+            safe_node.release_and_reset(parent);
+            swap(parent->constraints_, cs);
+            swap(parent->artificial_parameters, aps);
+            parent->add_constraint(f_test, all_params);
+            return safe_node.get_and_release();
+          }
+          // a) append into `cs' the constraints of f_node;
+          for (Constraint_System::const_iterator
+                 i = f_node->constraints_.begin(),
+                 i_end = f_node->constraints_.end(); i != i_end; ++i) {
+            cs.insert(*i);
+          }
+          // b) append into `aps' the parameters of f_node;
+          aps.insert(aps.end(),
+                     f_node->artificial_parameters.begin(),
+                     f_node->artificial_parameters.end());
+          // c) swap the updated `cs' and `aps' into f_node;
+          swap(cs, f_node->constraints_);
+          swap(aps, f_node->artificial_parameters);
+          // d) add f_test to f_node's constraints.
+          f_node->add_constraint(f_test, all_params);
           return f_node;
         }
       }
